@@ -91,13 +91,19 @@ def gen_cp(r, invalid=False):
         dict(strategy="max_tnr", min_rate="0.5"), dict(strategy="f_beta", beta=None),
         dict(strategy="f_beta", beta="1"), dict(strategy=None),
         dict(strategy="max_tpr", min_rate=None),
+        dict(strategy="max_tpr", min_rate=float("nan")), dict(strategy="max_tnr", min_rate=float("nan")),
+        dict(strategy="max_tnr", min_rate=float("inf")), dict(strategy="max_tpr", min_rate=[0.5]),
+        dict(strategy="f_beta", beta=[1.0]),
     ])
   s = r.choice(["accuracy", "f_beta", "max_tpr", "max_tnr"])
   cp = dict(strategy=s)
   if s == "f_beta":
     cp["beta"] = r.choice([0, 0.5, 1, 1.0, 2.0, 10.0])
   if s in ("max_tpr", "max_tnr"):
-    cp["min_rate"] = r.choice([0, 0.0, 0.1, 0.25, 0.5, 0.75, 0.9, 1, 1.0])
+    cp["min_rate"] = r.choice([0, 0.0, 0.1, 0.25, 0.5, 0.75, 0.9, 1, 1.0,
+                               # just above / below rates that small validation sets attain
+                               0.250001, 0.500004, 0.750001, 0.3333334, 0.6666667, 0.499999,
+                               0.2000001, 0.7999999, 1e-9, 1 - 1e-9])
   return cp
 
 
@@ -316,7 +322,13 @@ def gen_history(seed, tier, classes=None, weights=None, n_ops=(6, 16),
         ops.append(op)
         s.pre, s.data = newpre, other
         s.fitted = False
-        fit_op(s, other)
+        if r.random() < 0.7:
+          fit_op(s, other)
+        else:
+          # leave the estimator fitted with the *old* preprocessor_: a restart
+          # must preserve exactly that state
+          ops.append(dict(op="restart", h=s.hid, how="inproc"))
+          fit_op(s, other)
     elif k == "set_nondata":
       cp = cls_params(s.name)
       cand = {}
